@@ -1354,7 +1354,6 @@ func lemmaStableMediaType(s string) (m MediaType, m2 MediaType, accepted bool, o
 // printed text parses back to a URL that prints the same" - is then a definition,
 // not an uninterpreted predicate; that it holds for every parsed URL (stableRaw)
 // remains the assumption about net/url, exercised by the thorough tier.
-//@ spec fn isEOF(err error) bool = uninterpreted  ## "err wraps io.EOF" (errors.Is, extern.spec)
 //@ spec fn urlText(x *url.URL) string = uninterpreted
 //@ spec fn urlNorm(s string) string = uninterpreted
 //@ spec fn urlParsed(x *url.URL) bool = uninterpreted
@@ -2871,7 +2870,7 @@ func lemmaForwardSession(raw *rawEnvelope) (e *Session, e3 *Session, accepted bo
 //@   props C01 C04 C09 C12 C16
 //@   requires tcpInv(t)
 //@   panics only-if ctx == nil
-//@   modifies t.eof, t.limitedReader.N, t.limitedReader.consumed, t.ctxConn.readCtx, t.ctxConn.readCancel, t.decoder.ended, t.ctxConn.conn.closed
+//@   modifies t.eof, t.limitedReader.N, t.limitedReader.consumed, t.ctxConn.readCtx, t.ctxConn.readCancel, t.ctxConn.conn.closed
 //@   oncall [C04] (*encoding/json.Decoder).Decode[*rawEnvelope] : true
 //@   ensures [C16] @bounded t.limitedReader.consumed - old(t.limitedReader.consumed) <= old(t.limitedReader.N) && old(t.limitedReader.N) <= t.ReadLimit
 //@   ensures [C16] @rearmed result1 == nil ==> t.limitedReader.N == t.ReadLimit
@@ -2881,19 +2880,17 @@ func lemmaForwardSession(raw *rawEnvelope) (e *Session, e3 *Session, accepted bo
 //@   ensures [C12] @notopen old(t.conn == nil || t.eof) ==> result1 != nil
 //@   ensures [C12] @monotone t.conn != nil && !t.eof ==> old(t.conn != nil && !t.eof)  ## Transport model: a transport never becomes connected again
 //@   ensures [C12,C14] @disconnectedmeansreleased old(t.conn != nil && !t.eof) && !(t.conn != nil && !t.eof) ==> t.ctxConn.conn.closed  ## channel.Close skips Close on a transport that is not connected: such a transport must not hold an open socket
-//@   ensures [C07,C12,C14] @eofonlyatstreamend t.eof ==> old(t.eof) || t.decoder.ended  ## refinement of `connected`: a transport that still holds its socket reports "not connected" only when the peer closed the stream - otherwise channel.Close would skip the close and leave the peer on an open connection
 //@   ensures tcpInv(t)
 
 //@ func (*tcpTransport).Send :: (t, ctx, e) (result)
 //@   props C04 C09 C12
 //@   requires t != nil && (t.conn != nil && !t.eof ==> t.encoder != nil && t.ctxConn != nil && t.ctxConn.conn != nil)
 //@   panics only-if ctx == nil || e == nil || payloadnil(e)
-//@   modifies t.eof, t.ctxConn.writeCtx, t.ctxConn.writeCancel, t.encoder.ended, t.ctxConn.conn.closed
+//@   modifies t.eof, t.ctxConn.writeCtx, t.ctxConn.writeCancel, t.ctxConn.conn.closed
 //@   oncall [C04] (*encoding/json.Encoder).Encode : a_v == e
 //@   ensures [C12] @notopen old(t.conn == nil || t.eof) ==> result != nil
 //@   ensures [C09,C12] @stillopen result == nil ==> t.conn != nil && !t.eof  ## Transport model: a successful Send leaves the transport connected
 //@   ensures [C12] @monotone t.conn != nil && !t.eof ==> old(t.conn != nil && !t.eof)
-//@   ensures [C07,C12,C14] @eofonlyatstreamend t.eof ==> old(t.eof) || t.encoder.ended
 //@   ensures [C12,C14] @disconnectedmeansreleased old(t.conn != nil && !t.eof) && !(t.conn != nil && !t.eof) ==> t.ctxConn.conn.closed
 
 //@ func (*tcpTransport).Encryption :: (t) (result)
